@@ -375,15 +375,24 @@ def memo_verdict(repo, site):
     key_parts = expand(key_e)
     val_parts = expand(val_e)
     bare_in_key = set()
+    by_address = set()
     attrs_in_key = {}
     for part in key_parts:
         for n in ast.walk(part):
             if isinstance(n, ast.Attribute) and isinstance(n.value, ast.Name) and n.value.id in params:
                 attrs_in_key.setdefault(n.value.id, set()).add(n.attr)
-        # bare occurrences: a Name that is not the base of an attribute access
+        # bare occurrences: a Name that is not the base of an attribute access - and not the argument of id(): an address is not a value
         bases = set(id(n.value) for n in ast.walk(part) if isinstance(n, ast.Attribute))
+        in_id = set()
+        for n in ast.walk(part):
+            if isinstance(n, ast.Call) and isinstance(n.func, ast.Name) and n.func.id == 'id':
+                for a_ in n.args:
+                    for x_ in ast.walk(a_):
+                        in_id.add(id(x_))
+                        if isinstance(x_, ast.Name) and x_.id in params:
+                            by_address.add(x_.id)
         for n in _names(part):
-            if n.id in params and id(n) not in bases:
+            if n.id in params and id(n) not in bases and id(n) not in in_id:
                 bare_in_key.add(n.id)
     rs = Resolver(repo)
     used = {}       # param -> set of attributes read, or {'*'} when used whole and the reads are not known
@@ -417,6 +426,9 @@ def memo_verdict(repo, site):
         lack = attrs - attrs_in_key.get(p_, set())
         if lack:
             missing.append('%s.%s' % (p_, '/'.join(sorted(lack)[:4])))
+    addr = sorted(p_ for p_ in by_address if p_ in used and p_ not in bare_in_key)
+    if addr:
+        return 'lossy', 'the key identifies %s by id(): the address of an object, which a different or a modified object can have later, not its value' % ', '.join(addr)
     if missing:
         return 'lossy', 'the stored value is computed from %s, which the key %s does not contain' % (', '.join(missing), ast.unparse(key_e)[:80])
     if unknown:
@@ -477,6 +489,25 @@ def state_rule(repo, rep, funcs, scope=None):
         g = repo.func(mod, q)
         key = 'R-PURE::%s::%s::state' % (g.module.relpath, q)
         sites = list(pur.mut_global[id(g)])
+        # a mutable default argument written by the function is state kept between calls as well
+        seen_f = set()
+        todo = [g]
+        from ..model import Func
+        while todo:
+            h_ = todo.pop()
+            if id(h_) in seen_f:
+                continue
+            seen_f.add(id(h_))
+            for pn, (site, path) in pur.mut_params.get(id(h_), {}).items():
+                prm = [p_ for p_ in h_.params if p_.name == pn]
+                if prm and isinstance(prm[0].default, (ast.Dict, ast.List, ast.Set)) or (prm and isinstance(prm[0].default, ast.Call) and getattr(prm[0].default.func, 'id', '') in ('dict', 'list', 'set')):
+                    if site.func is h_:
+                        sites.append((site, [h_.qualname] if h_ is not g else []))
+            for c in ast.walk(h_.node):
+                if isinstance(c, ast.Call):
+                    t = pur.rs.callee(h_, c)
+                    if isinstance(t, Func) and id(t) in pur.mut_params:
+                        todo.append(t)
         if not sites:
             rep.holds('R-PURE', key, where(g, g.node), '%s and its callees keep no state between calls' % q)
             continue
@@ -494,3 +525,20 @@ def state_rule(repo, rep, funcs, scope=None):
             else:
                 rep.violated('R-PURE', k2, site.where, '%s%s writes module-level state (%s): its result then depends on earlier calls, not only on its arguments' % (
                     q, via, site.text[:100]), expected='no state kept between calls', actual=site.text[:200])
+
+
+def domain_guards(repo, rep, mod, q, symnames, domain, what, integer=(), opaque=()):
+    """the function's own raising tests, decided as predicates over the input box of the property (none may fire inside)"""
+    from .. import guards
+    from ..symval import Evaluator
+    f = repo.func(mod, q)
+    ev = Evaluator(repo, opaque=set(opaque))
+    ps = [p.name for p in f.params]
+    args = dict((ps[i], Rat.sym(symnames[i])) for i in range(min(len(symnames), len(ps))) if symnames[i])
+    try:
+        ev.call_function(f, args)
+    except RecursionError:
+        pass
+    n = guards.guard_rule(rep, 'R-GUARD', f, ev.raise_conds, domain, what, lambda nd: where(f, nd), integer=integer)
+    if n == 0:
+        rep.holds('R-GUARD', 'R-GUARD::%s::%s::no-own-tests' % (f.module.relpath, q), where(f, f.node), '%s has no raising input test of its own' % q)
